@@ -186,6 +186,7 @@ TrRestart ==
     /\ failsSince' = [k \in Callers |-> 0]
     /\ UNCHANGED <<conns, cursor, idle, addrOf, alive, open, used, closed>> /\ Rest /\ KeepBusy /\ Adv /\ NoFlag
 
+TrDrop == IsEv("env.drop") /\ UNCHANGED vars /\ Adv /\ NoFlag      \* one connection cut by the environment; its effects are logged (t.dead, c.close)
 TrObsClosing == IsEv("obs.closing") /\ UNCHANGED vars /\ Adv /\ NoFlag
 TrObsDupExec ==   \* a request was executed E.a > 1 times: something re-issued the call
     /\ IsEv("obs.dupexec")
@@ -199,7 +200,7 @@ TrObsEnd ==      \* E.a = sockets still open after Close and after every caller 
 TrNext ==
     \/ TrReset \/ TrDial \/ TrIdleDeq \/ TrGet \/ TrDead \/ TrConnClose \/ TrTick \/ TrTickEnd \/ TrRetire \/ TrIdleClose
     \/ TrCloseIdleActive \/ TrApiCloseIdle \/ TrCloseBegin \/ TrCloseConn \/ TrClosed
-    \/ TrApiCall \/ TrApiReg \/ TrIdleSpare \/ TrApiRet \/ TrKill \/ TrRestart \/ TrObsClosing \/ TrObsDupExec \/ TrObsEnd
+    \/ TrApiCall \/ TrApiReg \/ TrIdleSpare \/ TrApiRet \/ TrKill \/ TrRestart \/ TrDrop \/ TrObsClosing \/ TrObsDupExec \/ TrObsEnd
 
 TrSpec == TrInit /\ [][TrNext]_tvars
 
